@@ -1479,6 +1479,17 @@ package server
 //@   at call lockAcked#2 assert C11.flush.verdict: arg2 == false && !isnil(err)
 //@   at call lockAcked#3 assert C11.flush.verdict: arg2 == false && !isnil(err)
 //@   modifies all
+// C09/C16: before a full transfer the follower's log is emptied: for every old append file both the record file and
+// its value file (same name plus ".dat", in the data directory) are removed - a value file left behind is appended to
+// by the new log's file of the same index and its stale values are read back for the new records. The names are
+// values of the pure externals filepath.Join / fmt.Sprintf (externals.vc): the clause says WHICH name is removed
+//@ func (*Aof).Reset
+//@   requires self != nil
+//@   loop#1 invariant allocated(appendFiles) && -1 <= rangeindex && rangeindex < len(appendFiles)
+//@   loop#1 backedge C09.reset.both-files,C16.reset.both-files: calls(Remove) == athead(calls(Remove)) + 2
+//@   at call Remove assert C09.reset.names,C16.reset.names: arg0 == filepath.Join(self.dataDir, rewriteFile) || arg0 == filepath.Join(self.dataDir, fmt.Sprintf("%s.%s", rewriteFile, "dat")) || (0 <= rangeindex + 1 && rangeindex + 1 < len(appendFiles) && (arg0 == filepath.Join(self.dataDir, appendFiles[rangeindex + 1]) || arg0 == filepath.Join(self.dataDir, fmt.Sprintf("%s.%s", appendFiles[rangeindex + 1], "dat"))))
+//@   modifies all
+
 // C16/C08: a rotation that cannot open the next append file leaves the log where it was: the current file index
 // still names the newest file that exists (the compaction treats every file below the current index as a closed
 // input, and the next rotation attempt derives the next name from it)
